@@ -235,4 +235,4 @@ def run(report, tier):
                  "BFS over module item words (alphabet %s) x requested trait visibility %s on short words; "
                  "non-trivial = non-empty module" % (gen.MOD_ITEM_ORDER, VIS))
     report.assumptions += ["words containing `const fn` / body-less declarations cannot compile as traits: token view only"]
-    evaluate(states, report, tier)
+    common.evaluate_chunked(evaluate, states, report, tier)
